@@ -1,5 +1,6 @@
 (* Properties_C13.v — a provider withdraws or replaces everything it stops serving. *)
 From QV Require Import Base Fields SrcFacts Msg SrcDecisions Cache CacheSpec Sim Prober Hostname Provider ProviderSpec ProviderProofs ProviderListener ProviderReply.
+From QV Require Import NetPair NetLag ProviderUniform.
 Local Open Scope Z_scope.
 
 (* Handler level (the run-level listener theorem follows below).  Proved: farewell() multicasts exactly the currently published PTR, SRV and TXT with TTL 0; a completed
@@ -74,3 +75,24 @@ Theorem C13_replies_are_announced c L m m' : lreach c L -> pv_exists (cp_prov c)
   forall r, In r (m_records m') -> r = pv_browse (cp_prov c) \/ In r L.
 Proof. exact (replies_are_announced c L m m'). Qed.
 Print Assumptions C13_replies_are_announced.
+
+(* A provider never mixes a withdrawal with an announcement (ProviderUniform.v): in every state satisfying the listener
+   invariant (CInv, which holds in every reachable state: lreach_inv) and serving type T (TInv, preserved by every step whose
+   updates name type T), every multicast response a step of the composite emits names its records either all with TTL 0
+   or all with a live TTL.  A listener is never left with part of a service.  Acceptor code 44 demands the same of every
+   implementation trace.  PARTIAL in that the history's updates all name one service type T. *)
+Theorem C13_multicasts_never_mix_goodbye_and_announcement_partial T now c ev L m :
+  CInv c L -> TInv T c -> one_provider c ev -> ev_type_ok T ev ->
+  In (ESendAll m) (snd (comp_handle now c ev)) -> m_response m = true -> uniform_ttl (m_records m) = true.
+Proof. exact (multicasts_are_uniform T now c ev L m). Qed.
+Print Assumptions C13_multicasts_never_mix_goodbye_and_announcement_partial.
+
+(* non-vacuity: the step that completes the probe emits a multicast response *)
+Example C13_uniform_nonvacuous :
+  let h0 := fst (on_rebroadcast (mkHost [118; 109]%N [] [] [] false 1)) in
+  let svc := mkService (Some [95; 116; 46]%N) (Some [97]%N) None 80 [] in
+  let evs := [(2000, EvTimer T_REG); (2000, EvApi PNewProv); (2000, EvApi (PUpdate svc))] in
+  let c := fold_left (fun c ne => fst (comp_handle (fst ne) c (snd ne))) evs (mkComp h0 no_prov None) in
+  existsb (fun e => match e with ESendAll m => m_response m && (length (m_records m) =? 3)%nat | _ => false end)
+          (snd (comp_handle 4000 c (EvTimer T_PROBER))) = true.
+Proof. vm_compute. reflexivity. Qed.
